@@ -72,6 +72,7 @@ func TestVerifFinding_F2_EmissionLostAfterSecondRestart(t *testing.T) {
 	owner := types.Address{1}
 	state.Validators = append(state.Validators, types.Validator{
 		TotalBipStake: stake, PubKey: valPub, AccumReward: "10",
+		AbsentTimes: types.NewBitArray(24), // must be non-nil, otherwise the validator list cannot be re-decoded on restart
 	})
 	state.Candidates = append(state.Candidates, types.Candidate{
 		ID: 1, RewardAddress: owner, OwnerAddress: owner, ControlAddress: owner,
@@ -84,17 +85,19 @@ func TestVerifFinding_F2_EmissionLostAfterSecondRestart(t *testing.T) {
 		t.Fatal(err)
 	}
 
-	// ---- instance 1: InitChain + blocks 1..4
+	// ---- instance 1: InitChain + blocks 2..5
+	// (InitialHeight 2: with InitialHeight 1 the iavl version numbering of this code base is
+	// shifted by one against the block height and a reopened state cannot commit at all)
 	app := f2Open(t, home)
 	app.InitChain(tmTypes.RequestInitChain{
 		Time:          time.Now(),
 		ChainId:       "test",
 		Validators:    []tmTypes.ValidatorUpdate{tmTypes.Ed25519ValidatorUpdate(valPub[:], 1)},
-		InitialHeight: 1,
+		InitialHeight: 2,
 		AppStateBytes: jsonState,
 	})
-	h := int64(1)
-	for ; h <= 4; h++ {
+	h := int64(2)
+	for ; h <= 5; h++ {
 		f2Block(app, h, valPub)
 	}
 	e1 := new(big.Int).Set(app.GetEmission())
@@ -102,20 +105,18 @@ func TestVerifFinding_F2_EmissionLostAfterSecondRestart(t *testing.T) {
 		t.Fatal(err)
 	}
 
-	// ---- instance 2 (first restart): blocks 5..10
+	// ---- instance 2 (first restart): blocks 6..11
 	app = f2Open(t, home)
 	if got := app.GetEmission(); got.Cmp(e1) != 0 {
 		t.Fatalf("after first restart emission = %s, want %s (persisted while isDirtyPrice was still set by InitChain)", got, e1)
 	}
-	for ; h <= 10; h++ {
+	for ; h <= 11; h++ {
 		f2Block(app, h, valPub)
 	}
 	e2 := new(big.Int).Set(app.GetEmission())
 	if e2.Cmp(e1) != 1 {
-		t.Fatalf("test precondition: emission did not grow during blocks 5..10 (%s -> %s)", e1, e2)
+		t.Fatalf("test precondition: emission did not grow during blocks 6..11 (%s -> %s)", e1, e2)
 	}
-	volume2 := app.CurrentState().Coins().GetCoin(0)
-	_ = volume2
 	if err := app.Close(); err != nil {
 		t.Fatal(err)
 	}
@@ -125,8 +126,8 @@ func TestVerifFinding_F2_EmissionLostAfterSecondRestart(t *testing.T) {
 	defer app.Close()
 	e3 := app.GetEmission()
 	if e3.Cmp(e2) != 0 {
-		t.Fatalf("emission lost on restart: committed through height 10 with emission %s, but after reopening the node reports %s "+
-			"(= value before the first restart %s; %s pip emitted in blocks 5..10 are forgotten because Commit->SaveEmission is gated by isDirtyPrice)",
+		t.Fatalf("emission lost on restart: committed through height 11 with emission %s, but after reopening the node reports %s "+
+			"(= value before the first restart %s; %s pip emitted in blocks 6..11 are forgotten because Commit->SaveEmission is gated by isDirtyPrice)",
 			e2, e3, e1, new(big.Int).Sub(e2, e3))
 	}
 }
